@@ -4,6 +4,7 @@ From Coq.Strings Require Import Byte.
 From RecordUpdate Require Import RecordSet.
 From Model Require Import Bytes Utf8 Frame Conn.
 From Proofs Require Import ApiFacts CloseFacts DeliveryFacts StreamViolation CloseStream.
+From Props Require C01.
 Import ListNotations RecordSetNotations.
 Open Scope N_scope.
 
@@ -87,3 +88,33 @@ Print Assumptions C08_server_close_after_conforming_prefix.
 Example C08_good_close_nonvacuous :
   good_close [] None [] /\ good_close [x03; xe8; x62; x79; x65] (Some 1000) [x62; x79; x65].
 Proof. split; [left; repeat split; reflexivity|right; exists x03, xe8; repeat split; reflexivity]. Qed.
+
+(* The whole stream, client-initiated direction: the client has sent its Close and is closing (parser between two frames, no
+   message open); the server's Close frame -- empty, or a valid status code with a UTF-8 reason, any length form -- followed
+   by ANY bytes.  For any application that only sends, with no ping/close timeout configured: exactly one Closed event with
+   the server's code and reason, the websocket is then closed (so the loop ends with a graceful Disconnected and closes the
+   socket: C08_closed_ends_gracefully, C13), not a single frame is written, and nothing after the Close frame is parsed. *)
+Theorem C08_client_close_completed : forall cf app, benign app ->
+  zpos (c_ping_timeout cf) = None -> zpos (c_close_timeout cf) = None ->
+  forall c f lf code reason rest,
+  closing_idle c ->
+  plain f -> f_op f = OP_CLOSE -> f_fin f = true -> blen (f_payload f) <= 125 -> form_ok lf (blen (f_payload f)) = true ->
+  good_close (f_payload f) code reason ->
+  exists c', feedf cf app c (enc_frame f lf ++ rest) = (c', SOk) /\
+    msg_events (k_tr c') = EvClosed code reason :: msg_events (k_tr c) /\
+    k_closed c' = true /\ writes (k_tr c') = writes (k_tr c).
+Proof. exact client_close_completed. Qed.
+Print Assumptions C08_client_close_completed.
+
+(* housekeeping while the client waits for the server's Close (no timeout configured): nothing is written, nothing changes *)
+Theorem C08_quiet_while_closing : forall cf app, benign app ->
+  zpos (c_ping_timeout cf) = None -> zpos (c_close_timeout cf) = None ->
+  forall c, k_closing c = true ->
+  snd (regular cf app c) = SOk /\ same_core c (fst (regular cf app c)) /\
+  msg_events (k_tr (fst (regular cf app c))) = msg_events (k_tr c) /\
+  writes (k_tr (fst (regular cf app c))) = writes (k_tr c).
+Proof. exact regular_closing. Qed.
+Print Assumptions C08_quiet_while_closing.
+
+Example C08_closing_idle_nonvacuous : closing_idle (fst (ws_close C01.c0 (Some 1000) [])).
+Proof. vm_compute. repeat split; reflexivity. Qed.
